@@ -78,12 +78,12 @@ def wide(bits):
 
 @st.composite
 def ipow_case(draw):
-    dom = draw(st.sampled_from(("int", "int", "frac", "mat", "str")))
+    dom = draw(st.sampled_from(("int", "int", "frac", "mat", "str", "mutmat")))
     if dom == "int":
         x = draw(st.one_of(st.integers(-9, 9), wide(128)))
     elif dom == "frac":
         x = [draw(st.integers(-2 ** 16, 2 ** 16)), draw(st.integers(1, 2 ** 16))]
-    elif dom == "mat":
+    elif dom in ("mat", "mutmat"):
         x = [[draw(st.integers(-5, 5)) for _ in range(2)] for _ in range(2)]
     else:
         x = draw(st.text("abc", min_size=0, max_size=3))
